@@ -320,7 +320,12 @@ def handleResolve (cliPath tomlEnc contractsExists implExit implReport : String)
       let want := sortS ((o.optimizations.map (·.name)) ++ (o.vulnerabilities.map (·.name)) ++ (o.qa.map (·.name))).eraseDups
       let dirKey := ((o.path.splitOn "/").getLast?.getD "") ++ "_"
       let filesOk := rb.out.all (fun t => t.2.1.startsWith dirKey) && !rb.out.isEmpty
-      let ok := seen == want && (filesOk || want.isEmpty)
+      -- oracle side: the listed names through the REVIEWED name table (not the regenerated one)
+      let listed : Option (List String) := args.toml.map fun t => (t.optimizations ++ t.vulnerabilities ++ t.qa).map asciiLower
+      let wantReviewed : List String := match listed with
+        | some names => sortS (names.filterMap fun n => lookup reviewedNames n).eraseDups
+        | none => want
+      let ok := seen == want && seen == wantReviewed && (filesOk || want.isEmpty)
       -- the property in its own words: the sections of the report are exactly those of the listed (or default)
       -- patterns, and every entry comes from the selected directory (the fixture has findings for every pattern)
       { kind := "RESOLVE", agree := if ok then "A" else "D", oracle := if ok then "ok" else "VIOL",
